@@ -265,8 +265,64 @@ def _nb(a, v):
   return a
 
 
+FRESH_OPS = ["+", "-", "*", "&", "|", "^", "<<", ">>", "==", "!=", "<", "<=", ">", ">="]
+MUTATIONS = ("@=", "<<=flip", "setbit", "setslice")
+
+
+def _apply(op, a, b):
+  import operator
+  f = {"+": operator.add, "-": operator.sub, "*": operator.mul, "&": operator.and_, "|": operator.or_, "^": operator.xor, "<<": operator.lshift,
+       ">>": operator.rshift, "==": operator.eq, "!=": operator.ne, "<": operator.lt, "<=": operator.le, ">": operator.gt, ">=": operator.ge}[op]
+  return f(a, b)
+
+
+def check_fresh(case):
+  """("fresh", op, n, x, y, bform, mutation): r = a op b is computed twice; the FIRST result object is then mutated in place; the operands,
+  the second result and a third, freshly computed result must still have the value of the integer specification. An operator that hands
+  out a shared or cached object (or an operand) fails here although every single call, looked at alone, returns the right value."""
+  from pymtl3.datatypes import Bits
+  _, op, n, x, y, bform, mut = case
+  a = Bits(n, x)
+  b = Bits(n, y) if bform == "B" else y
+  want = spec(op, n, x, y)
+  if want is None: return []
+  try:
+    r1 = _apply(op, a, b)
+    r2 = _apply(op, a, b)
+  except Exception:
+    return []                       # error cases are the subject of check_binop
+  w = r1.nbits
+  flipped = (int(r1) + 1) % (1 << w)
+  try:
+    if mut == "@=": r1 @= flipped
+    elif mut == "<<=flip": r1 <<= flipped; r1._flip()
+    elif mut == "setbit": r1[0] = 1 - int(r1[0])
+    else: r1[0:w] = flipped
+  except Exception as ex:
+    return [("fresh:mutation-raised", "in-place update of a result works", repr(ex)[:100], f"{op} {mut}")]
+  fails = []
+  r3 = _apply(op, a, b)
+  if int(a) != x: fails.append((f"fresh:{op}:operand-changed", x, int(a), f"left operand after mutating the result with {mut}"))
+  if bform == "B" and int(b) != y: fails.append((f"fresh:{op}:operand-changed", y, int(b), f"right operand after mutating the result with {mut}"))
+  if int(r2) != want: fails.append((f"fresh:{op}:earlier-result-changed", want, int(r2), f"a second result of the same operation changed when the first was mutated ({mut})"))
+  if int(r3) != want: fails.append((f"fresh:{op}:later-result-wrong", want, int(r3), f"the operation returns a wrong value after an earlier result was mutated ({mut})"))
+  return fails
+
+
+def gen_fresh(W):
+  for n in range(1, W + 1):
+    for op in FRESH_OPS:
+      for x in range(1 << n):
+        for y in range(1 << n):
+          for bform in ("B", "I"):
+            for mut in MUTATIONS:
+              if (x + y) % 2 and mut in ("setbit", "setslice") and n > 1: continue      # thinned: every mutation kind still meets every op and both truth values
+              yield ("fresh", op, n, x, y, bform, mut)
+
+
 def check_case(case):
   k = case[0]
+  if k == "fresh": return check_fresh(case)
   if k == "binop": return check_binop(case)
   if k == "unop": return check_unop(case)
   if k == "ctor": return check_ctor(case)
@@ -516,7 +572,7 @@ def shards(tier):
   S = [("full", n) for n in range(1, W + 1)]
   step = 16 if tier == "quick" else 8
   S += [("boundary", lo, min(lo + step, 1024)) for lo in range(1, 1024, step)]
-  S += [("mixed",), ("ctor", 4 if tier == "quick" else 6)]
+  S += [("mixed",), ("ctor", 4 if tier == "quick" else 6), ("fresh", 3 if tier == "quick" else 5)]
   S += [("proto", n) for n in ((1, 2, 3) if tier == "quick" else (1, 2, 3, 4))]
   return S
 
@@ -552,6 +608,7 @@ def run_shard(shard, tier, seed):
   elif kind == "boundary": gen = (c for n in range(shard[1], shard[2]) for c in gen_boundary(n))
   elif kind == "mixed": gen = gen_mixed()
   elif kind == "ctor": gen = gen_ctor_small(shard[1])
+  elif kind == "fresh": gen = gen_fresh(shard[1])
   i = 0
   for case in gen:
     fails = check_case(case)
